@@ -32,11 +32,11 @@ namespace igris
 
         char &operator[](std::size_t pos)
         {
-            return &data[pos];
+            return data[pos];
         }
         const char &operator[](std::size_t pos) const
         {
-            return &data[pos];
+            return data[pos];
         }
 
         std::size_t room()
